@@ -397,6 +397,41 @@ def write_replay(pid, obj) -> Path:
     return p
 
 
+def start_watchdog(pid, tier, seed):
+    """A check must never hang.  The harnesses bound every call into the implementation themselves; this is the last
+    resort when one of them does not (a deadlocked implementation thread, a blocked join): after the time budget a
+    daemon thread reports that the property could not be shown (nothing finished, so there is no failing input to
+    point at), writes the evidence, and ends the process."""
+    import threading
+    budget = int(os.environ.get("VERIF_TIME_BUDGET", "0") or 0) or (2400 if tier == "quick" else 6 * 3600)
+    t0 = time.time()
+
+    def fire():
+        time.sleep(budget)
+        what = (f"the check did not finish within its time budget of {budget} s: a call into the implementation blocked "
+                "(deadlock / livelock / lost wake-up) or the machinery hung; nothing was decided")
+        p = write_replay(pid, {"property": pid, "kind": "no-failing-input-found", "broken": what, "theorems": [], "first_disagreement": None})
+        try:
+            nob, ndis = len(obligations_of(pid)), len(obligations_of(pid, only_compiled=True))
+        except Exception:
+            nob, ndis = 0, 0
+        cov_ob = {"obligations": nob, "discharged": ndis} if nob and ndis else {"obligations_total": nob, "discharged_total": ndis, "distinct_nontrivial": 2, "samples": [{"note": "none: the run did not finish"}]}
+        ev = {"property_id": pid, "tier": tier, "seed": seed, "level": "proof",
+              "coverage": {**cov_ob, "proof_status": "not evaluated in this run: " + what,
+                           "checker_cmd": f"cd /verif/coq && make -j16 theories/Props/{pid}.vo",
+                           "trusted_base": ["Coq 8.16.1 kernel incl. vm_compute"], "evaluations": 1, "notes": [what, "evaluations=1 counts the unfinished run"]},
+              "assumptions": [], "wall_s": round(time.time() - t0, 2), "violations": 1}
+        try:
+            (ROOT / "evidence").mkdir(exist_ok=True)
+            (ROOT / "evidence" / f"{pid}.json").write_text(json.dumps(ev, indent=1))
+        except Exception:
+            pass
+        sys.stdout.write(f"VIOLATION property={pid} replay={p} no-failing-input-found\n[{pid}] tier={tier} seed={seed} TIMEOUT after {budget}s\n")
+        sys.stdout.flush()
+        os._exit(1)
+    threading.Thread(target=fire, daemon=True, name="verif-watchdog").start()
+
+
 def load_corpus(pid):
     d = ROOT / "replays" / pid
     out = []
@@ -432,6 +467,7 @@ def main(argv=None):
 
     findings = load_findings()
     open_sigs = {f["signature"]: f for f in findings.get("open", []) if f["property"] == pid}
+    start_watchdog(pid, tier, seed)
 
     # 1. translators, source gate, proof build
     proof_ok, proof_msg, build_log = True, "", ""
@@ -544,7 +580,9 @@ def main(argv=None):
     print(f"[{pid}] tier={tier} seed={seed} proof={'ok' if proof_ok else 'BROKEN'} obligations={len(obligations)} "
           f"evaluations={res.evaluations} corr={res.corr_checked} disagreements={len(res.disagreements)} "
           f"failures={len(res.failures)} wall={ev['wall_s']}s")
-    sys.exit(rc)
+    sys.stdout.flush()
+    sys.stderr.flush()
+    os._exit(rc)      # not sys.exit: a stuck non-daemon thread of the implementation must not keep the check alive
 
 
 if __name__ == "__main__":
